@@ -66,6 +66,7 @@ R = {
     "eq_concatenations":  ("quick", ["C11"], "bounded", RB, 900),
     "cmp_text":           ("thorough", ["C12"], "bounded", RB, 1800),
     "truthiness":         ("quick", ["C10"], "bounded", RB, 900),
+    "xor_classifies":     ("quick", ["C10"], "bounded", RB, 900),
     "defer_protocol":     ("quick", ["C08"], "bounded", RB, 900),
     "access_list":        ("quick", ["C16"], "bounded", RB, 900),
     # ~32 min (measured 1903 s): the concatenation walker through ops::access on one fixed nested shape, index symbolic
